@@ -5,7 +5,130 @@ import random
 from pyvc.bounded import Harness, Failure
 from spec import pddl_sem as PS, semantics as SEM, gen as G, repo_api as RA, sexp as SX, views as V
 
-CONTRACTS = {}
+import z3
+from pyvc.core import Val
+from pyvc.sorts import I, S, B, Q
+
+TE = "exporters.numeric_trajectory_exporter:TrajectoryExporter."
+NTE = "exporters.numeric_trajectory_exporter:"
+OP = "models.pddl_operator:Operator."
+_TT = ("ref", "TrajectoryTriplet")
+_ST = ("ref", "State")
+_OPR = ("ref", "Operator")
+# uninterpreted relations standing for what the bounded checks of C02/C03 establish about one operator:
+#   op_applicable(op, s)   : the operator's precondition holds in s
+#   op_succ(op, s, s')     : s' is the successor of s under op
+_op_applicable = z3.Function("op_applicable", I, I, B)
+_op_succ = z3.Function("op_succ", I, I, I, B)
+_line_name = z3.Function("line_name", S, S)          # action name of a plan line (parse_action_call, bounded)
+_line_args = z3.Function("line_args", S, Q)          # its arguments, in order
+
+
+def _h_applicable(interp, st, a):
+    return Val(_op_applicable(a[0].t, a[1].t), "bool")
+
+
+def _h_succ(interp, st, a):
+    return Val(_op_succ(a[0].t, a[1].t, a[2].t), "bool")
+
+
+def _h_line_name(interp, st, a):
+    return Val(_line_name(a[0].t), "str")
+
+
+def _h_line_args(interp, st, a):
+    return Val(_line_args(a[0].t), ("seq", "str"))
+
+
+def _h_triplet_rel(interp, st, a):
+    """triplet_rel(t, prev, line, objs, exporter): the step t is what the transition function dictates for `line` in `prev`:
+    operator = the line's call on this exporter's domain with the problem's objects; post-state = successor when the action is
+    applicable or inapplicable actions are allowed; otherwise (refused) a state with prev's facts and fluents, not an initial state."""
+    t, prev, line, objs, ex = a
+    T = lambda f, r=t: interp.read_field(st, r, r.ty[1], f)
+    op = Val(T("operator").t, _OPR)
+    O = lambda f: interp.read_field(st, op, "Operator", f)
+    dom = interp.read_field(st, ex, "TrajectoryExporter", "domain")
+    allow = interp.read_field(st, ex, "TrajectoryExporter", "allow_invalid_actions").t
+    acts = interp.read_field(st, Val(dom.t, ("ref", "Domain")), "Domain", "actions")
+    amap = interp.read_field(st, Val(acts.t, ("ref", "dict_str_ref")), "dict_str_ref", "map")
+    nxt = Val(T("next_state").t, _ST)
+    N = lambda f, r=nxt: interp.read_field(st, r, "State", f)
+    P = lambda f: interp.read_field(st, prev, "State", f)
+    call_objs = interp.read_field(st, Val(O("grounded_call_objects").t, ("ref", "list_str")), "list_str", "items")
+    applicable = _op_applicable(op.t, prev.t)
+    return Val(z3.And(
+        T("previous_state").t == prev.t,
+        O("action").t == z3.Select(amap.t, _line_name(line.t)), O("domain").t == dom.t, O("problem_objects").t == objs.t,
+        call_objs.t == _line_args(line.t),
+        z3.Implies(z3.Or(applicable, allow), _op_succ(op.t, prev.t, nxt.t)),
+        z3.Implies(z3.And(z3.Not(applicable), z3.Not(allow)),
+                   z3.And(N("state_predicates").t == P("state_predicates").t, N("state_fluents").t == P("state_fluents").t,
+                          z3.Not(N("is_init").t)))), "bool")
+
+
+_HOOKS = {"triplet_rel": _h_triplet_rel, "op_applicable": _h_applicable, "op_succ": _h_succ, "line_name": _h_line_name, "line_args": _h_line_args}
+CONTRACTS = {
+    NTE + "parse_action_call": dict(
+        prop="C04", assumed=True, params={"action_call": "str"}, returns=("ref", "ActionCall"),
+        ensures=["fresh(result)", "result.name == line_name(action_call)", "fresh(result.parameters)",
+                 "seq(result.parameters) == line_args(action_call)"],
+        raises={"IndexError": "True"}, modifies=[], spec_hooks=_HOOKS),
+    OP + "apply": dict(
+        prop="C04", assumed=True,
+        params={"self": _OPR, "previous_state": _ST, "allow_inapplicable_actions": "bool", "skip_validation": "bool"}, returns=_ST,
+        # the transition function (checked bounded by C02/C03): a fresh successor, or ValueError exactly for a refused action
+        ensures=["fresh(result)", "op_succ(self, previous_state, result)"],
+        raises={"ValueError": "not op_applicable(self, previous_state) and not allow_inapplicable_actions and not skip_validation"},
+        must_raise=["not op_applicable(self, previous_state) and not allow_inapplicable_actions and not skip_validation"],
+        modifies=["Operator.grounded[self]", "Operator.grounded_effects[self]", "Operator.grounded_preconditions[self]"], spec_hooks=_HOOKS),
+    TE + "create_single_triplet": dict(
+        prop="C04",
+        params={"self": ("ref", "TrajectoryExporter"), "previous_state": _ST, "action_call": "str", "problem_objects": ("ref", "opaque")},
+        locals={"action_descriptor": ("ref", "ActionCall"), "operator": _OPR, "next_state": _ST},
+        returns=_TT, dict_values={"dict_str_ref": "Action"},
+        requires=["allocated(self.domain)", "allocated(self.domain.actions)"],
+        ensures=["fresh(result)", "result.previous_state == previous_state", "fresh(result.next_state)", "fresh(result.operator)",
+                 "triplet_rel(result, previous_state, action_call, problem_objects, self)"],
+        # an unknown action name / malformed line is an error, never a silently different step
+        raises={"KeyError": "True", "IndexError": "True"},
+        modifies=[], calls={"parse_action_call": NTE + "parse_action_call", "Operator.apply": OP + "apply"},
+        spec_hooks=_HOOKS),
+    TE + "_read_plan": dict(prop="C04", assumed=True, params={"self": ("ref", "TrajectoryExporter"), "plan_file_path": "str"},
+                            returns=("ref", "list_str"), ensures=["fresh(result)"], raises={}, modifies=[]),
+    TE + "parse_plan": dict(
+        prop="C04",
+        params={"self": ("ref", "TrajectoryExporter"), "problem": ("ref", "Problem"), "plan_path": "str", "action_sequence": ("ref", "list_str")},
+        optional=("action_sequence",),
+        locals={"triplets": ("seq", _TT)},
+        returns=("seq", _TT),
+        requires=["action_sequence is not None", "allocated(self.domain)", "allocated(self.domain.actions)"],
+        ensures=[
+            # one step per plan line, in plan order
+            "len(result) == len(action_sequence)",
+            # the first pre-state is the problem's initial state
+            "implies(len(result) > 0, result[0].previous_state.is_init and "
+            "result[0].previous_state.state_predicates == problem.initial_state_predicates and "
+            "result[0].previous_state.state_fluents == problem.initial_state_fluents)",
+            # every pre-state is the preceding post-state (same object)
+            "forall_int(lambda k: result[k].previous_state == result[k - 1].next_state, 1, len(result))",
+            # every step is what the transition function dictates for its own line and pre-state (incl. the refusal rule)
+            "forall_int(lambda k: triplet_rel(result[k], result[k].previous_state, seq(action_sequence)[k], problem.objects, self), 0, len(result))",
+        ],
+        raises={"KeyError": "True", "IndexError": "True"}, modifies=[],
+        calls={"self.create_single_triplet": TE + "create_single_triplet", "self._read_plan": TE + "_read_plan"},
+        loops={0: dict(invariants=[
+            "len(triplets) == _i",
+            "implies(_i == 0, previous_state.is_init and previous_state.state_predicates == problem.initial_state_predicates and "
+            "previous_state.state_fluents == problem.initial_state_fluents)",
+            "implies(_i > 0, previous_state == triplets[_i - 1].next_state)",
+            "implies(_i > 0, triplets[0].previous_state.is_init and triplets[0].previous_state.state_predicates == problem.initial_state_predicates and "
+            "triplets[0].previous_state.state_fluents == problem.initial_state_fluents)",
+            "forall_int(lambda k: triplets[k].previous_state == triplets[k - 1].next_state, 1, _i)",
+            "forall_int(lambda k: triplet_rel(triplets[k], triplets[k].previous_state, _seq[k], problem.objects, self), 0, _i)",
+        ], modifies=[])},
+        spec_hooks=_HOOKS),
+}
 LEVEL = "other"
 EXPLANATION = ("bounded stand-in: TrajectoryExporter.parse_plan over every plan of length <= 3 (11 ground calls) of the scenario domain: one "
                "triplet per plan line in order, first pre-state = the problem's initial state, chained pre/post states, every post-state = "
@@ -50,6 +173,13 @@ class PlanToTrajectory(Harness):
         for plan in G.plans(3, rnd, cap=400 if tier == "quick" else None):
             for allow in (False, True):
                 yield {"plan": [[n, list(a)] for n, a in plan], "allow": allow}
+
+    def escalated_inputs(self, seed):
+        rnd = random.Random(seed + 4)
+        calls = G.scenario_calls()
+        for _ in range(1500):
+            n = rnd.randint(4, 12)
+            yield {"plan": [[c[0], list(c[1])] for c in (rnd.choice(calls) for _ in range(n))], "allow": rnd.random() < 0.5}
 
     def nontrivial_key(self, inp):
         return (str(inp["plan"]), inp["allow"]) if len(inp["plan"]) >= 2 else None
